@@ -371,6 +371,8 @@ func b64(s string) ([]byte, error) { return base64.RawURLEncoding.DecodeString(s
 // until the harness resumes the goroutine. At most one pause per execution (preemption bound 1), at most PAUSEHITS
 // hits per pause point and execution are choice points.
 var pz struct {
+	selOn, selUsed bool   // owned selects: a non-default outcome may still be chosen / was chosen
+	selAt          string // "<file>:<line> case k" of that outcome
 	c    *choice.Ctx
 	ch   chan struct{}
 	at   string
@@ -390,9 +392,18 @@ var pauseMode = report.ParamInt("PAUSE", 0) > 0
 
 func pauseBegin(c *choice.Ctx) {
 	if !pauseMode {
+		// no pause points in this build; where the implementation files carry owned selects (tools_instr -selonly) those are
+		// choice points all the same
+		if report.ParamInt("SELECTS", 1) > 0 {
+			pz.c, pz.ch, pz.at, pz.used, pz.abort = c, nil, "", false, false
+			pz.selOn, pz.selUsed, pz.selAt = true, false, ""
+			pause.SelHook = selHook
+		}
 		return
 	}
 	pz.c, pz.ch, pz.at, pz.used, pz.abort = c, nil, "", false, false
+	pz.selOn, pz.selUsed, pz.selAt = report.ParamInt("SELECTS", 1) > 0, false, ""
+	pause.SelHook = selHook
 	// The pause space is partitioned by the harness step during whose reaction the goroutine is stopped: the window is the
 	// first choice of the execution, which spreads the subtrees over the worker processes (pause choice points are binary
 	// with a heavy default branch; as leading choices they would leave all the work to one shard).
@@ -448,11 +459,50 @@ func paused() bool { return pz.ch != nil }
 
 // pauseNote names the pause point of this execution for violation messages.
 func pauseNote() string {
+	n := ""
 	if pz.used {
-		return " [one goroutine stood still before " + pz.at + " until resumed]"
+		n = " [one goroutine stood still before " + pz.at + " until resumed]"
 	}
-	return ""
+	if pz.selUsed {
+		n += " [the select at " + pz.selAt + " was taken although an earlier case was ready too]"
+	}
+	return n
 }
+
+// selHook runs on an implementation goroutine that is about to execute a blocking select of which several cases are ready
+// (tools_instr, ownSelect): the first ready case in source order is the default, any other one is a deviation, at most one
+// per execution. (The Go runtime picks at random; every outcome offered here is one it can produce.)
+func selHook(id string, ready []int) (k int) {
+	k = ready[0]
+	if !hmu.TryLock() {
+		return // implementation code called on the harness goroutine itself: the default outcome, no choice point
+	}
+	defer hmu.Unlock()
+	func() {
+		if pz.c == nil || !pz.selOn || pz.selUsed || pz.abort {
+			return
+		}
+		defer func() {
+			if r := recover(); r != nil {
+				if !choice.IsUnowned(r) {
+					panic(r)
+				}
+				pz.abort = true
+			}
+		}()
+		if j := pz.c.Choose(len(ready), "select@"+id); j > 0 {
+			k = ready[j]
+			pz.selUsed, pz.selAt = true, fmt.Sprintf("%s case %d", id, k)
+		}
+	}()
+	return
+}
+
+// selOff: from here on (wind-down of a scenario) selects take their default outcome.
+func selOff() { pz.selOn = false }
+
+// pauseOff: no goroutine is stopped from here on (a scenario's closing part that judges progress).
+func pauseOff() { pause.Enable(false) }
 
 func resume() bool {
 	if pz.ch != nil {
@@ -465,6 +515,7 @@ func resume() bool {
 
 func pauseEnd() {
 	pause.Enable(false)
+	pause.SelHook = nil
 	pz.c = nil
 	resume()
 }
